@@ -1296,6 +1296,7 @@ namespace sqf::parser::assembly::bison
     void parser::error(const location_type& loc, const std::string& msg)
     {
         actual.__log(logmessage::sqf::ParseError({ *loc.begin.filename, loc.begin.line, loc.begin.column }, msg));
+        actual.__failed();
     }
     inline parser::symbol_type yylex (::sqf::runtime::runtime& runtime, ::sqf::parser::assembly::tokenizer& tokenizer)
     {
